@@ -13,6 +13,8 @@ pub trait VMessageDecoder<T> {
 }
 // Comp = Arc<dyn Compress + Send + Sync>, Decomp = Arc<dyn Decompress + Send + Sync>
 #[verifier::external_body] pub struct Comp { _p: u8 }
+// Comp = Arc<dyn Compress + Send + Sync>: cloning the Arc yields the same compressor
+impl Clone for Comp { #[verifier::external_body] fn clone(&self) -> (r: Comp) ensures r == *self { unimplemented!() } }
 #[verifier::external_body] pub struct Decomp { _p: u8 }
 impl Comp {
     pub uninterp spec fn comp(&self, input: Seq<u8>) -> Option<Seq<u8>>;
